@@ -98,7 +98,7 @@ def _alarm(*a):
 def guarded(f, *a, **k):
     """run an implementation call under a time limit; ('ok', value) | ('err', repr)"""
     signal.signal(signal.SIGALRM, _alarm)
-    signal.alarm(10)
+    signal.alarm(4)
     try:
         return ("ok", f(*a, **k))
     except Timeout:
@@ -438,18 +438,27 @@ def neg_variants(rng, comps, lens):
     return out
 
 
-def gen_read_case(rng, tier):
-    tb = gen_table(rng, big=(tier != "quick" and rng.random() < .3), ragged=rng.random() < .15)
-    w = sum(r for _, r in tb["cols"]); h = sum(r for r, _ in tb["rows"])
-    m = rng.choice(READERS)
-    over = rng.random() < .25          # allow addresses beyond the table
-    def px(): return rng.randrange(0, w + (3 if over else 0) + 1) if (over or w == 0) else rng.randrange(0, w)
-    def py(): return rng.randrange(0, h + (3 if over else 0) + 1) if (over or h == 0) else rng.randrange(0, h)
-    x, zz = sorted([px(), px()]); y, t = sorted([py(), py()])
-    if rng.random() < .05:
-        x, zz = zz, x
-    if rng.random() < .05:
-        y, t = t, y
+def gen_read_case(rng, tier, fixed=None):
+    """fixed = dict(table, m, xyzt, kind): the exhaustive small-scope sweep; otherwise everything is drawn from rng"""
+    if fixed:
+        tb, m = fixed["table"], fixed["m"]
+        x, y, zz, t = fixed["xyzt"]
+        pick = lambda n: fixed["kind"] % (n + 1)
+        rng = random.Random(repr((m, fixed["xyzt"], fixed["kind"])))
+        w = sum(r for _, r in tb["cols"]); h = sum(r for r, _ in tb["rows"])
+    else:
+        tb = gen_table(rng, big=(tier != "quick" and rng.random() < .3), ragged=rng.random() < .15)
+        w = sum(r for _, r in tb["cols"]); h = sum(r for r, _ in tb["rows"])
+        m = rng.choice(READERS)
+        over = rng.random() < .25          # allow addresses beyond the table
+        def px(): return rng.randrange(0, w + (3 if over else 0) + 1) if (over or w == 0) else rng.randrange(0, w)
+        def py(): return rng.randrange(0, h + (3 if over else 0) + 1) if (over or h == 0) else rng.randrange(0, h)
+        x, zz = sorted([px(), px()]); y, t = sorted([py(), py()])
+        if rng.random() < .05:
+            x, zz = zz, x
+        if rng.random() < .05:
+            y, t = t, y
+        pick = lambda n: rng.randint(0, n)
     forms, bounds, valid, j, cls = [], [None] * 4, True, None, None
     if m in ("GetCell", "GetValue"):
         forms = [("s", cell_name(x, y)), ("t", [x, y]), ("s", cell_name(x, y).lower()), ("s", cell_name(x, y) + ":" + cell_name(x + 1, y + 2)), ("t", [x, y, x + 1, y + 2]),
@@ -457,7 +466,7 @@ def gen_read_case(rng, tier):
         if w == 0:
             forms.append(("t", [-rng.randint(1, 3), -rng.randint(1, 3)] if x == 0 and y == 0 else [x, y]))
     elif m in ("GetValues", "IterValues", "GetCells"):
-        kind = rng.randint(0, 7)
+        kind = pick(7)
         if kind == 0:
             forms = [("s", cell_name(x, y) + ":" + cell_name(zz, t)), ("t", [x, y, zz, t]), ("t", neg_variants(rng, [x, y, zz, t], [w, h, w, h])),
                      ("s", " " + cell_name(x, y).lower() + " : " + cell_name(zz, t) + " ")]
@@ -483,7 +492,7 @@ def gen_read_case(rng, tier):
             forms = [("s", ":" + cell_name(zz, t)), ("t", [None, None, zz, t])]
             bounds = [None, None, zz, t]
     elif m == "GetRows":
-        kind = rng.randint(0, 3)
+        kind = pick(3)
         if kind == 0:
             forms = [("s", "%d:%d" % (y + 1, t + 1)), ("t", [y, t]), ("t", [None, y, None, t]), ("s", cell_name(x, y) + ":" + cell_name(zz, t)), ("t", [x, y, zz, t]),
                      ("t", neg_variants(rng, [y, t], [h, h]))]
@@ -497,7 +506,7 @@ def gen_read_case(rng, tier):
         else:
             forms = [None, ("s", ""), ("t", [])]
     elif m == "GetColumns":
-        kind = rng.randint(0, 3)
+        kind = pick(3)
         if kind == 0:
             forms = [("s", col_name(x) + ":" + col_name(zz)), ("t", [x, zz]), ("t", [x, None, zz, None]), ("s", cell_name(x, y) + ":" + cell_name(zz, t)), ("t", [x, y, zz, t]),
                      ("t", neg_variants(rng, [x, zz], [w, w]))]
@@ -523,13 +532,13 @@ def gen_read_case(rng, tier):
         if w == 0 and x == 0:
             forms.append(("i", -rng.randint(1, 4)))
     else:
-        j = rng.randrange(0, h) if h else 0
+        j = (y % h if fixed else rng.randrange(0, h)) if h else 0
         rw = sum(r for _, r in tb["rows"][0][1]) if False else None
         if m in ("RowGetCell", "RowGetValue"):
             forms = [("s", col_name(x)), ("i", x), ("s", col_name(x).lower()), ("s", cell_name(x, j))]
             forms.append(("neg", x))   # resolved at run time against the row's own width
         else:
-            kind = rng.randint(0, 3)
+            kind = pick(3)
             if kind == 3:
                 # a cell reference given to a row: the cell of that column (known finding F86: the row number is read as the end column)
                 forms = [("s", cell_name(x, j)), ("t", [x, x])]
@@ -543,6 +552,44 @@ def gen_read_case(rng, tier):
             else:
                 forms = [None, ("s", ""), ("t", [])]
     return dict(k="read", table=tb, m=m, j=j, forms=forms, bounds=bounds, valid=valid, cls=cls)
+
+
+def small_table(w, h, repeats):
+    """deterministic w x h table with distinct values; repeats=True run-length encodes columns, the first row and the first cell"""
+    if w == 0 or h == 0:
+        return dict(cols=[(0, w)] if w and repeats else [(i, 1) for i in range(w)], rows=[])
+    cols = [(0, w)] if repeats and w > 1 else [(i, 1) for i in range(w)]
+    rows = []
+    for r in range(h):
+        cells = [(None if (r + c) % 4 == 3 else 10 + r * w + c, 1) for c in range(w)]
+        if repeats and w > 1 and r == 0:
+            cells = [(cells[0][0], 2)] + cells[2:]
+        rows.append((1, cells))
+    if repeats and h > 1:
+        rows = [(2, rows[0][1])] + rows[2:]
+    return dict(cols=cols, rows=rows)
+
+
+def gen_read_exhaustive(maxn):
+    """every reader x every address (x<=z, y<=t up to one beyond the edge) x every form family, on all tables up to maxn x maxn"""
+    out, seen = [], set()
+    for w in range(0, maxn + 1):
+        for h in range(0, maxn + 1):
+            if w == 0 and h > 0:
+                continue
+            for repeats in (False, True):
+                tb = small_table(w, h, repeats)
+                for m in READERS:
+                    for x in range(0, w + 2):
+                        for zz in range(x, w + 2):
+                            for y in range(0, h + 2):
+                                for t in range(y, h + 2):
+                                    for kind in range(0, 8):
+                                        sp = gen_read_case(None, "thorough", fixed=dict(table=tb, m=m, xyzt=[x, y, zz, t], kind=kind))
+                                        d = common.digest(json.dumps(sp, sort_keys=True))
+                                        if d not in seen:
+                                            seen.add(d); out.append(sp)
+    return out
 
 
 def row_values(row):
@@ -1196,7 +1243,7 @@ def run(tier, seed, replay=None):
     proofs = common.build_proofs(PROP)
     known = {e["key"]: e for e in common.known_findings(PROP)}
     specs = {g: [] for g in GROUPS}
-    corpus_n = 0
+    corpus_n = 0; exhaustive_B = 0
     if replay:
         rp = json.load(open(replay))
         specs[rp["group"]].append(rp["case"])
@@ -1204,7 +1251,10 @@ def run(tier, seed, replay=None):
         for f in sorted((common.ROOT / "corpus" / PROP).glob("*.json")):
             d = json.load(open(f)); specs[d["group"]].append(d["case"]); corpus_n += 1
         specs["A"] += gen_pure(tier, rng)
-        nB, nC = (2500, 1200) if tier == "quick" else (60000, 25000)
+        nB, nC = (2500, 1200) if tier == "quick" else (30000, 20000)
+        exh = gen_read_exhaustive(1 if tier == "quick" else 3)
+        exhaustive_B = len(exh)
+        specs["B"] += exh
         specs["B"] += [gen_read_case(rng, tier) for _ in range(nB)]
         specs["C"] += [gen_write_case(rng, tier) for _ in range(nC)]
         specs["D"] += gen_named(rng, tier)
@@ -1290,7 +1340,8 @@ def run(tier, seed, replay=None):
              "non-trivial = column >= 26 or a string is parsed (A); table non-empty (B, C); name contains space/./'/$ (D); distinct = distinct case descriptions (hashed)",
         samples=samples, histogram=hist, corpus_cases=corpus_n, fidelity_notes=notes, abstraction_errors=len(abstraction_errors),
         known_findings_reobserved=known_seen, exhaustive=False,
-        exhaustive_parts="column numbers 0..20000; increment on [-40,5]x[0,13]")
+        exhaustive_parts="column numbers 0..20000; increment on [-40,5]x[0,13]; readers: all tables up to %s (plain and run-length encoded) x 20 readers x all "
+                         "addresses with x<=z, y<=t up to one beyond the edge x all form families = %d distinct cases" % ("1x1" if tier == "quick" else "3x3", exhaustive_B))
     return common.finish(PROP, tier, seed, proofs, coverage, violations, known_seen, t0,
                          assumptions=["coordinates are ASCII letters and digits (str.isalpha / int() of other scripts are outside the property)",
                                       "writers are driven on tables without repeated runs (repeated runs under writers are C01's subject)",
